@@ -228,6 +228,7 @@ package resharing
 //@   requires [new-ids-nonzero-modulo-the-order] forall k in 0..rsNewN(round) :: keyOf(round.ReSharingParameters.newParties.partyIDs[k]) % secpN != 0
 //@   modifies round.number, round.started, round.oldOK[*], round.newOK[*], round.save.NTildej[*], round.save.H1j[*], round.save.H2j[*], round.temp.newXi, round.temp.newKs, round.temp.newBigXjs, round.temp.dgRound4Message2s[*], sent(round.out), allfield("crypto.ECPoint", "curve")
 //@   ensures [C04.old-share-intact-before-the-final-round] ecShareIntact(round)
+//@   site (*crypto.ECPoint).Equals#0 : [C04.the-summed-constant-commitment-is-compared-with-the-announced-public-key] $arg0 == Vc[0] && $arg1 == round.save.ECDSAPub
 //@   loop 0 invariant rsNew(round.ReSharingParameters) && round.started && fresh(paiProofCulprits) && fresh(dlnProof1FailCulprits) && fresh(dlnProof2FailCulprits) && len(paiProofCulprits) == rsNewN(round) && len(dlnProof1FailCulprits) == rsNewN(round) && len(dlnProof2FailCulprits) == rsNewN(round) && arr(paiProofCulprits) != arr(dlnProof1FailCulprits) && arr(paiProofCulprits) != arr(dlnProof2FailCulprits) && arr(dlnProof1FailCulprits) != arr(dlnProof2FailCulprits) && dlnVerifier != nil && wg != nil && h1H2Map != nil && fresh(h1H2Map) && i == round.ReSharingParameters.Parameters.partyID.Index
 //@   loop 0 invariant forall k in 0..$iter :: bitlen(rsNT(round.temp.dgRound2Message1s[k])) == 2048
 //@   loop 1 invariant rsNew(round.ReSharingParameters) && round.started && i == round.ReSharingParameters.Parameters.partyID.Index && (forall k in 0..rsNewN(round) :: bitlen(rsNT(round.temp.dgRound2Message1s[k])) == 2048)
